@@ -110,8 +110,16 @@ func (w *Reconciler) SyncOne(ctx context.Context, namespace, name string, _ int)
 	}
 
 	// Update Job and JobStatus.
-	if _, err := w.client.UpdateJob(ctx, rj, newRj); err != nil {
+	updatedRj, err := w.client.UpdateJobAndGet(ctx, rj, newRj)
+	if err != nil {
 		return errors.Wrapf(err, "cannot update job")
+	}
+
+	// Use the latest resourceVersion for the status update, otherwise it would
+	// always conflict with the update above.
+	if updatedRj != nil {
+		newRj = newRj.DeepCopy()
+		newRj.ResourceVersion = updatedRj.ResourceVersion
 	}
 
 	// Update the JobStatus if different.
